@@ -64,6 +64,15 @@ Definition simple_policy (n : Z) : policy :=
 Definition expo_policy (n : Z) : policy :=
   mkPolicy (fun _ a => (if a >? n then false else true, None)) (fun _ _ => K.RetryNextHost).
 
+(* policies.go:189-205 getExponentialTime, the sleep of ExponentialBackoffRetryPolicy.Attempt, without the
+   random jitter: napDuration = min * 2^(attempts-1) + jitter*min - min/2 with jitter in [0,1), capped by max;
+   min <= 0 means 100 ms, max <= 0 means 10 s (durations in nanoseconds).  The result lies between
+   [nap_lo] (jitter 0, truncated) and [nap_hi] (jitter -> 1); stated for attempts >= 1. *)
+Definition eff_min (mn : Z) : Z := if mn <=? 0 then 100000000 else mn.
+Definition eff_max (mx : Z) : Z := if mx <=? 0 then 10000000000 else mx.
+Definition nap_lo (mn mx a : Z) : Z := Z.min (eff_max mx) (eff_min mn * 2 ^ (a - 1) - (eff_min mn + 1) / 2).
+Definition nap_hi (mn mx a : Z) : Z := Z.min (eff_max mx) (eff_min mn * 2 ^ (a - 1) + eff_min mn / 2).
+
 (* policies.go:241-264 *)
 Definition downgrading_rtype (e : err) : Z :=
   match e with
